@@ -1,6 +1,6 @@
 #!/usr/bin/env python3
 """bin/reeval.py <seeded dir> [<check ids csv>]: re-runs the evaluation of a kept seeded change against the current checks (default: the checks
-recorded in its meta.json) and rewrites the 'checks' part of meta.json."""
+recorded in its meta.json) and updates those entries of 'checks' in meta.json."""
 import json, os, subprocess, sys
 d = sys.argv[1].rstrip("/")
 meta = json.load(open(d + "/meta.json"))
@@ -12,6 +12,6 @@ if not ok:
     print(os.path.basename(d), "NOT CONFIRMED", {k: res.get(k) for k in ("applies", "tests", "demo_pristine_rc", "demo_mutant_rc")})
     sys.exit(1)
 meta["confirmed"].update({"tests": res["tests"], "demo_exit_on_pristine": res["demo_pristine_rc"], "demo_exit_on_changed": res["demo_mutant_rc"]})
-meta["checks"] = {c: {"exit": v["exit"], "caught": v["exit"] == 1, "summary": v["summary"], "first_report": v["first"]} for c, v in res["checks"].items()}
+meta["checks"].update({c: {"exit": v["exit"], "caught": v["exit"] == 1, "summary": v["summary"], "first_report": v["first"]} for c, v in res["checks"].items()})
 json.dump(meta, open(d + "/meta.json", "w"), indent=1)
 print(os.path.basename(d), {c: v["exit"] for c, v in res["checks"].items()})
